@@ -93,7 +93,7 @@ from vc2_conformance.py2x_compat import quote
 
 from vc2_conformance.string_utils import wrap_paragraphs
 
-from vc2_conformance.file_format import write
+from vc2_conformance.file_format import write, get_metadata_and_picture_filenames
 
 from vc2_conformance.pseudocode.state import State
 
@@ -406,6 +406,16 @@ def parse_args(*args, **kwargs):
         args.output % (0,)
     except TypeError as e:
         parser.error("--output is not a valid printf template: {}".format(e))
+
+    # The extension of the formatted name is replaced when a picture is written
+    # so, for example, 'picture.%d' would name every picture 'picture.raw'
+    if get_metadata_and_picture_filenames(
+        args.output % (0,)
+    ) == get_metadata_and_picture_filenames(args.output % (1,)):
+        parser.error(
+            "--output must name a different file for every picture "
+            "(the picture number must not be part of the file extension)"
+        )
 
     return args
 
